@@ -12,11 +12,15 @@ import tempfile
 import common
 from common import Failure, cZ, cN, cnat, cbool, clist, copt, capp
 import impl
+import c13b
 
 EXPLANATION = ('Theorems over the Gallina model of matcher_interval/combinations/intervals/model_construction '
                '(Props/C13.v) + differential correspondence of that model with the running code.')
 ASSUMPTIONS = ['contents matchers are matchers of unknown class; their truth per line is an oracle computed with Python re',
                'the model mirrors the code as of the fix commit; the pre-fix algorithm is kept as eval ... false (refuted)']
+
+EXPLANATION += ' ' + c13b.EXPLANATION_PART2
+ASSUMPTIONS += list(c13b.ASSUMPTIONS_PART2)
 
 CMPS = [('==', 'CEq'), ('!=', 'CNe'), ('<', 'CLt'), ('<=', 'CLe'), ('>', 'CGt'), ('>=', 'CGe')]
 CONTENTS = ['a', 'b', 'ab', 'c', '']  # line contents (ids = index)
@@ -233,10 +237,14 @@ def run(ctx, res):
                                                             'lines': [CONTENTS[c] for c in lines], 'impl_interval': str(iv),
                                                             'impl_output': [CONTENTS[c] for c in out]},
                                          'model (interval / filter output / truth) differs from implementation'))
+    # part 2: filter -line-nums (harness/c13b.py)
+    c13b.run_part2(ctx, res)
 
 
 def replay(ctx, payload):
     case = payload.get('case') or (payload.get('correspondence_disagreements') or [{}])[0].get('case')
+    if isinstance(case, dict) and case.get('level') == 'line-nums':
+        return c13b.replay(ctx, payload)
     print(json_dumps(case))
     return 0
 
